@@ -71,3 +71,9 @@ PLAN["C14"] = dict(quick=["conv"], thorough=["conv"])
 
 PLAN["C18"] = dict(quick=["two", "flat", "subs", "fin", "subject", "share", "time7", "tsubs"],
                    thorough=["unary", "chain2", "two", "flat", "subs", "fin", "subject", "share", "group", "time7", "time9", "tsubs", "retire"])
+
+SUITES["conc"] = dict(mc="MC_Conc")
+PLAN["C10"] = dict(quick=["conc"], thorough=["conc"])
+for _p in ("C02", "C06", "C12", "C14", "C15"):
+    PLAN[_p]["quick"] = PLAN[_p]["quick"] + ["conc"]
+    PLAN[_p]["thorough"] = PLAN[_p]["thorough"] + ["conc"]
